@@ -204,6 +204,9 @@ def attempt_run(name, defs, tier, seed, cfgs, tlc_workers=8):
                     kind = ("err_span" if exp["kind"] == "err" or got["kind"] == "err" else "munch") if info["what"] == "byte" else "eoi"
                     if got["kind"] in ("panic", "died"):
                         kind = "crash"
+                if "guard" in rep and len(findings) < 5000:
+                    findings.append({"def": m["id"], "cfg": c, "kind": "guard_diff", "what": info["what"], "input": hexs(info["data"]), "path": info["path"], "x": info["x"],
+                                     "expected": "the same result whatever bytes lie next to the source in memory", "got": {"kind": "guard", "variant": rep["guard"], "with_neighbours": rep.get("guard_got", "")[:300], "exact": str(strip_events(rep))[:300]}, "src": m["src"]})
                 if not ok and len(findings) < 5000:
                     findings.append({"def": m["id"], "cfg": c, "kind": kind, "what": info["what"], "input": hexs(info["data"]),
                                      "path": info["path"], "x": info["x"], "expected": exp, "got": got, "src": m["src"], "must": info.get("must")})
